@@ -106,7 +106,10 @@ def run(ctx):
         "function names that are not Go identifiers and Doc/Pragma text with a line break are not on the list either: "
         "the statement then demands only all-or-nothing (a failing generation writes nothing); the generated names are "
         "ASCII (the model's identifier syntax is the ASCII part of Go's), the broken texts are 3 fixed ones",
-        "a call with a nil argument may be reported as an error or ignored (Spec allows both) but must not panic",
+        "a call with a nil argument may be reported as an error or ignored (Spec allows both) but must not panic; "
+        "when such a call panics no further builder call is issued on that context (how much of the abandoned call's "
+        "effect is in place is not pinned down), Result() and Main are still run and a panic there is attributed to "
+        "the nil call; histories with a nil argument are judged by the acceptor only (no exact comparison)",
         "Package(path) is never called (it runs `go list`; several messages for one call — one per package error — "
         "would be outside 'one message per fault'); Implement is exercised only without a package",
         "build.Generate itself (os.Exit, flag.CommandLine) is not run; its Config comes from build.NewFlags on a private "
